@@ -21,6 +21,7 @@ Step kinds (all public API, except "norm" = Expression._normalize, which the tes
     build   op kids [n base via]     constructor or operator over pooled expressions -> Expression
     norm    o                Expression._normalize()                        -> Expression
     eq      a b              a == b                                         -> bool
+    peq     p twin           Point p ==/hash-equal to the same point spelled in sorted order -> str
     hash    o                hash(o) == hash(fresh equal copy)              -> bool
     repr    o                repr(o)                                        -> str
 """
@@ -315,6 +316,8 @@ def _operands(step):
         return list(step["kids"])
     if k == "eq":
         return [step["a"], step["b"]]
+    if k == "peq":
+        return []
     raise HarnessError(f"unknown step kind {k}")
 
 
@@ -383,6 +386,10 @@ def _call(step, k, ops, pt):
             return ("str", _strip_point(repr(ops[0]))), None
         if k == "hash":
             return ("num", hash(ops[0])), None
+        if k == "peq":
+            # the pooled Point (spelled as the caller wrote it) against a twin spelled in sorted order
+            twin = S.make_point(step["twin"])
+            return ("str", f"{pt == twin},{twin == pt},{hash(pt) == hash(twin)}"), None
     raise HarnessError(f"unknown step kind {k}")
 
 
